@@ -65,11 +65,12 @@ Definition has_key (o : obs) (k : key) : bool := existsb (fun r => key_eqb (okey
 Definition is_owner (names : list Z) (o : obs) (n c : Z) : bool :=
   oz_eqb (owner_in names o n) (Some c).
 
-(** who writes under which name *)
+(** who writes under which name; names are the canonical (normalised) identities, whatever the
+    spelling used in the request *)
 Definition writer (o : op) : option (Z * Z) :=
   match o with
-  | OAdd c _ n _ _ _ | OUpdate c _ n _ _ _ _ | OUpdateExp c _ n _ _
-  | ODelete c _ n | ODeleteDistinct c _ n _ | ODeleteName c n | OPurge c n => Some (c, n)
+  | OAdd c _ n _ _ _ _ | OUpdate c _ n _ _ _ _ _ | OUpdateExp c _ n _ _ _
+  | ODelete c _ n _ | ODeleteDistinct c _ n _ _ | ODeleteName c n | OPurge c n => Some (c, n)
   | _ => None
   end.
 
@@ -90,9 +91,9 @@ Definition p_only_owner (names : list Z) (prev : obs) (o : op) (cur : obs) : boo
 Definition justified (names : list Z) (prev : obs) (now : Z) (o : op) (r : orec) : bool :=
   let '(a, n, v, _, e) := r in
   match o with
-  | ODelete c a' n' => (a =? a') && (n =? n') && is_owner names prev n c
-  | ODeleteDistinct c a' n' v' => (a =? a') && (n =? n') && (v =? v') && is_owner names prev n c
-  | OUpdate c a' n' ov _ _ _ => (a =? a') && (n =? n') && (v =? ov) && is_owner names prev n c
+  | ODelete c a' n' _ => (a =? a') && (n =? n') && is_owner names prev n c
+  | ODeleteDistinct c a' n' v' _ => (a =? a') && (n =? n') && (v =? v') && is_owner names prev n c
+  | OUpdate c a' n' ov _ _ _ _ => (a =? a') && (n =? n') && (v =? ov) && is_owner names prev n c
   | ODeleteName c n' | OPurge c n' => (n =? n') && is_owner names prev n c
   | OBlock dt => match e with Some t => t <? now + dt | None => false end
   | _ => false
